@@ -179,16 +179,30 @@ Definition block_agrees (b : block) (x : obs_block) : bool :=
       end)
   && forallb2 row_agrees (b_rows b) (ob_rows x).
 
-Definition model_agrees (unit : Q) (output_unit : option Q) (E : env) (o : options) (st : stats)
-           (ob : obs) : bool :=
-  let r := show_text_py unit output_unit E o st in
+Definition report_agrees (r : report) (ob : obs) : bool :=
   list_eqb String.eqb (render_report r) (o_lines ob)
   && String.eqb (rp_unit r) (o_unit ob)
   && forallb2 block_agrees (rp_blocks r) (o_blocks ob)
   && forallb2 (fun m x => key_eq (fst m) (snd x) && String.eqb (lstrip_space (snd m)) (fst x))
               (rp_summary r) (o_summary ob).
 
+Definition model_agrees (unit : Q) (output_unit : option Q) (E : env) (o : options) (st : stats)
+           (ob : obs) : bool :=
+  report_agrees (show_text_py unit output_unit E o st) ob.
+
 (* one correspondence case: (model agrees with the implementation, spec holds of the implementation) *)
 Definition case_ok (unit : Q) (output_unit : option Q) (E : env) (fs : files) (o : options)
            (st : stats) (ob : obs) : bool * bool :=
   (model_agrees unit output_unit E o st ob, spec_ok unit output_unit fs o st ob).
+
+(* the two command lines, end to end: the text they print vs the model's glue functions, and the
+   property predicate on that text w.r.t. the statistics of the .lprof file the run wrote *)
+Definition viewer_case_ok (unit u : Q) (z t m : bool) (E : env) (fs : files) (st : stats) (ob : obs)
+  : bool * bool :=
+  (report_agrees (viewer_cli_report unit u z t m E st) ob,
+   spec_ok unit (Some u) fs (mkOpts z t m true) st ob).
+
+Definition kernprof_case_ok (unit u : Q) (z : bool) (E : env) (fs : files) (st : stats) (ob : obs)
+  : bool * bool :=
+  (report_agrees (kernprof_view_report unit u z E st) ob,
+   spec_ok unit (Some u) fs (mkOpts z false false true) st ob).
